@@ -16,10 +16,13 @@ import (
 	"os"
 	"sort"
 	"strings"
+	"time"
 
 	"github.com/cube2222/octosql/octosql"
+	"github.com/cube2222/octosql/physical"
 
 	"github.com/cube2222/octosql/plugins/verifharness/core"
+	"github.com/cube2222/octosql/plugins/verifharness/nodeh"
 	"github.com/cube2222/octosql/plugins/verifharness/props/c09/vals"
 )
 
@@ -199,6 +202,22 @@ func buildUniverse(thorough bool) (*universe, map[string]int) {
 		octosql.TypeSum(octosql.TypeSum(octosql.Int, vals.ListOf(octosql.Int)), vals.TupleOf(octosql.Int))} {
 		u.add(s)
 	}
+	// unions built by struct literal, NOT through TypeSum (the engine builds such unions itself:
+	// logical.TypecheckPossiblyNullableStruct makes {object, NULL}): NULL first / in the middle /
+	// last, unsorted alternatives, 2-4 alternatives; no duplicate type ids, no nested unions.
+	n0 := len(u.list)
+	oa := vals.ObjectOf(vals.Field("a", octosql.Int))
+	li := vals.ListOf(octosql.Int)
+	tu := vals.TupleOf(octosql.Int)
+	N, I, F, S, B := octosql.Null, octosql.Int, octosql.Float, octosql.String, octosql.Boolean
+	for _, alts := range [][]octosql.Type{
+		{S, N}, {I, N}, {oa, N}, {li, N}, {tu, N}, {N, oa}, {S, I}, {oa, S}, {tu, li},
+		{I, N, S}, {S, I, N}, {N, S, I}, {S, oa, N}, {oa, N, S}, {li, N, oa}, {S, F, I},
+		{F, N, I, S}, {S, F, I, N}, {N, S, F, I}, {S, oa, N, li}, {B, S, F, I},
+	} {
+		u.add(vals.UnionOf(append([]octosql.Type{}, alts...)...))
+	}
+	sizes["hand_built_unions"] = len(u.list) - n0
 	sizes["total"] = len(u.list)
 	return u, sizes
 }
@@ -689,6 +708,100 @@ func arities(v octosql.Value, id octosql.TypeID, out map[int]bool) {
 	}
 }
 
+// sqlProbe: `col->a` over a column whose type is a union holding an object. The engine builds
+// {object, NULL} by hand (NULL last) and calls NonNullable on it; if NonNullable does not remove a
+// NULL that is not the first alternative the query stops typechecking. Judged: the query plans,
+// the output type admits NULL and the field type, and for object / NULL rows the value is the
+// field / NULL. What a non-object, non-NULL row yields at run time is not judged (counted).
+func sqlProbe(c *core.Ctx, selftest bool) {
+	oa := vals.ObjectOf(vals.Field("a", octosql.Int), vals.Field("b", octosql.String))
+	row := func(v octosql.Value) nodeh.Event { return nodeh.Rec([]octosql.Value{v}, false, time.Time{}) }
+	obj := func(i int64) octosql.Value { return vals.O(vals.I(i), vals.S("x")) }
+	cases := []struct {
+		name string
+		t    octosql.Type
+		rows []octosql.Value
+	}{
+		{"object", oa, []octosql.Value{obj(1), obj(2)}},
+		{"NULL|object (TypeSum)", octosql.TypeSum(oa, octosql.Null), []octosql.Value{obj(1), octosql.NewNull(), obj(3)}},
+		{"object|NULL (hand-built)", vals.UnionOf(oa, octosql.Null), []octosql.Value{obj(1), octosql.NewNull(), obj(3)}},
+		{"String|object (TypeSum)", octosql.TypeSum(oa, octosql.String), []octosql.Value{obj(1), vals.S("s"), obj(3)}},
+		{"NULL|String|object (TypeSum)", octosql.TypeSum(octosql.TypeSum(oa, octosql.String), octosql.Null), []octosql.Value{obj(1), octosql.NewNull(), vals.S("s"), obj(3)}},
+		{"String|object, only objects", octosql.TypeSum(oa, octosql.String), []octosql.Value{obj(5), obj(6)}},
+	}
+	for ci, cs := range cases {
+		c.Eval(1)
+		c.Count("sql_probe/cases", 1)
+		c.Nontrivial("sqlprobe " + cs.name)
+		evs := make([]nodeh.Event, len(cs.rows))
+		for i, v := range cs.rows {
+			evs[i] = row(v)
+		}
+		db := &nodeh.DB{Tables: map[string]*nodeh.Table{"t": {Fields: []physical.SchemaField{{Name: "c", Type: cs.t}}, TimeField: -1, NoRetractions: true, Events: evs}}}
+		sql := "SELECT c->a AS x FROM m.t"
+		rp := map[string]interface{}{"id": fmt.Sprintf("sqlprobe/%d", ci), "column_type": render(cs.t), "sql": sql}
+		pfx := ""
+		p, outs, res, perr := nodeh.RunSQL(nodeh.Ctx(), sql, db, nodeh.PlanOpts{Optimize: true, Output: "none"}, 30*time.Second)
+		if perr != nil {
+			c.Violation("field-access-on-union-column-rejected", fmt.Sprintf("%s over a column of type %s does not plan: %s", sql, render(cs.t), perr.Error()), rp)
+			continue
+		}
+		ot := p.Schema.Fields[0].Type
+		if selftest && ci == 1 {
+			ot = octosql.String
+			pfx = "selftest:"
+		}
+		wantNull := cs.t.TypeID != octosql.TypeIDStruct
+		if octosql.Int.Is(ot) != is || (wantNull && octosql.Null.Is(ot) != is) {
+			c.Violation(pfx+"field-access-output-type", fmt.Sprintf("%s over %s has output type %s", sql, render(cs.t), render(ot)), rp)
+		}
+		if res.TimedOut {
+			c.Inconclusive("watchdog")
+			continue
+		}
+		if res.Panicked {
+			c.Violation("panic:"+core.PanicSite(res.Stack), "field access panicked: "+res.PanicMsg, rp)
+			continue
+		}
+		if res.Err != nil {
+			onlyObjNull := true
+			for _, v := range cs.rows {
+				if v.TypeID != octosql.TypeIDStruct && v.TypeID != octosql.TypeIDNull {
+					onlyObjNull = false
+				}
+			}
+			if onlyObjNull {
+				c.Violation("field-access-run-error", "field access over object/NULL rows failed: "+res.Err.Error(), rp)
+			} else {
+				c.Count("sql_probe/not_judged/run_error_on_non_object_row", 1)
+			}
+			continue
+		}
+		// rows come out in input order (a Map over the scripted source)
+		j := 0
+		for _, v := range cs.rows {
+			if v.TypeID != octosql.TypeIDStruct && v.TypeID != octosql.TypeIDNull {
+				c.Count("sql_probe/not_judged/non_object_row", 1)
+				j++
+				continue
+			}
+			if j >= len(outs) {
+				c.Violation("field-access-rows", "fewer output rows than input rows", rp)
+				break
+			}
+			got := outs[j].Record.Values[0]
+			j++
+			want := octosql.NewNull()
+			if v.TypeID == octosql.TypeIDStruct {
+				want = v.Struct[0]
+			}
+			if vals.BitKey(got) != vals.BitKey(want) {
+				c.Violation("field-access-value", fmt.Sprintf("%s of %s = %s, want %s", "c->a", vals.Describe(v), vals.Describe(got), vals.Describe(want)), rp)
+			}
+		}
+	}
+}
+
 func Run(c *core.Ctx) core.FinishOpts {
 	thorough := c.Tier == "thorough"
 	u, sizes := buildUniverse(thorough)
@@ -757,6 +870,7 @@ func Run(c *core.Ctx) core.FinishOpts {
 	for _, nv := range k.vs {
 		k.checkValue(nv.Name, nv.V, "value/u/"+nv.Name)
 	}
+	sqlProbe(c, k.selftest)
 	nRandom := c.Pick(20000, 400000)
 	vr := c.Rng("value-law")
 	type rv struct {
@@ -776,7 +890,7 @@ func Run(c *core.Ctx) core.FinishOpts {
 	return core.FinishOpts{
 		Level: "exploration",
 		Rule: "type universe = base types, one-level list/object/tuple constructors, their TypeSums with a partner set (all of round 1 in the thorough tier) and one more round of nesting over the resulting unions; " +
-			"all ordered pairs are evaluated; non-trivial pair = neither type contains the other (TypeSum must merge), non-trivial NonNullable case = nullable argument, non-trivial value = list/object/tuple; distinct by rendered types / value bits",
+			"plus unions built by struct literal (NULL first/middle/last, unsorted alternatives, 2-4 alternatives, no duplicate type ids, no nesting); all ordered pairs are evaluated, every law is judged up to Equals (mutual Is, which does not depend on the order of alternatives); an SQL probe runs col->a over object/union columns through the real pipeline; non-trivial pair = neither type contains the other (TypeSum must merge), non-trivial NonNullable case = nullable argument, non-trivial value = list/object/tuple; distinct by rendered types / value bits",
 		Floor:       c.Pick(50000, 200000),
 		Assumptions: []string{"oracle: the laws, Is==TypeRelationIs as containment, own matches(value,type) for the value-level legs", "Go toolchain"},
 		Exhaustive:  true,
